@@ -2422,7 +2422,7 @@ def blend_linked_image(mode: int, rng: random.Random):
     return ase.serialize(ase.Sprite(width=W, height=H, frames=[fr0, fr1])), B, S, lo, co
 
 
-def blend_indexed_image(mode: int, rng: random.Random):
+def blend_indexed_image(mode: int, rng: random.Random, plain: bool = False):
     """an INDEXED two-layer sprite: the alpha of a pixel comes from its palette entry (entries with alpha 0, 1, 128, 254 among
     opaque ones); both cels cover the canvas, neither uses the transparent colour index; Normal at 255 / 255 half of the time"""
     W, H = rng.randint(1, 8), rng.randint(1, 4)
@@ -2432,6 +2432,14 @@ def blend_indexed_image(mode: int, rng: random.Random):
     bi = [rng.randrange(n) for _ in range(W * H)]
     si = [rng.randrange(n) for _ in range(W * H)]
     lo, co = rng.choice([(255, 255), (255, 255), (200, 131), (255, 128)])
+    if plain:
+        # the upper layer at full layer and cel opacity, covering the canvas, using translucent and fully transparent palette entries
+        lo, co = 255, 255
+        pal = [(c[0], c[1], c[2], 255) for c in pal]
+        pal[0], pal[1] = (pal[0][0], pal[0][1], pal[0][2], 128), (pal[1][0], pal[1][1], pal[1][2], 0)
+        W, H = max(W, 3), max(H, 2)
+        si = [k % 3 for k in range(W * H)]
+        bi = [2 + (k * 5) % (n - 2) for k in range(W * H)]          # an opaque backdrop: what is (not) drawn over it shows
     fr = ase.Frame(chunks=[
         ase.PaletteChunk(first=0, entries=pal),
         ase.LayerChunk(flags=1, blend=0, opacity=255, name="b"), ase.LayerChunk(flags=1, blend=mode, opacity=lo, name="s"),
@@ -2571,7 +2579,7 @@ def blend_check(prop: str, tier: str, seed: int) -> int:
                 cases.append((m, -1, "apart", w.put(data), B, S, lo, co))
             # an indexed sprite (pixel alpha from the palette)
             for j in range(4 if quick else 40):
-                data, B, S, lo, co = blend_indexed_image(m, rng)
+                data, B, S, lo, co = blend_indexed_image(m, rng, plain=(j == 0))
                 cases.append((m, -1, "indexed", w.put(data), B, S, lo, co))
             # frame 0 made of linked cels
             for j in range(4 if quick else 40):
@@ -3447,6 +3455,14 @@ def check_C16(tier: str, seed: int) -> int:
                 # pass of its own below (the driver keeps the previous sprite alive while the next one is loaded and observed)
                 twin_pairs.append((len(items) - 1, len(items)))
                 items.append((w.put(gen.encode(name_twin_of(s, rng), None, rng)), "generated, names changed"))
+        # frames (not the last one) whose header declares more bytes than their chunks occupy: the size field is informational
+        for extra in (1, 8, 16, 4096):
+            f0 = ase.Frame(chunks=[ase.LayerChunk(name="p"), ase.CelChunk(layer=0, w=1, h=1, pixels=b"\1\2\3\4", ctype_cel=0)])
+            real = len(f0.encode(None)) if hasattr(f0, "encode") else 0
+            f0.nbytes_override = real + extra
+            f1 = ase.Frame(duration=222, chunks=[ase.CelChunk(layer=0, w=1, h=1, pixels=b"\5\6\7\xff", ctype_cel=2)])
+            items.append((w.put(ase.serialize(ase.Sprite(width=1, height=1, frames=[f0, f1, ase.Frame(duration=333)]))),
+                          "frame 0 declares %d bytes more than its chunks occupy" % extra))
         for k in range(12 if tier == "quick" else 100):
             # two indexed sprites with the same colours at the same indices and different entry names
             cols = [(rng.randrange(256), rng.randrange(256), rng.randrange(256), 255) for _ in range(rng.randint(2, 9))]
